@@ -37,7 +37,8 @@ Record ops_rel : Prop := mkRel {
     Rt (fst (op_shorten O1 t1 now)) (fst (op_shorten O2 t2 now)) /\
     snd (op_shorten O1 t1 now) = snd (op_shorten O2 t2 now);
   rel_ka : forall t1 t2 now, Rt t1 t2 ->
-    (exists k, op_ka_ttl O1 t1 now = Ok k) /\ (exists k, op_ka_ttl O2 t2 now = Ok k) }.
+    (exists k, op_ka_ttl O1 t1 now = Ok k) /\ (exists k, op_ka_ttl O2 t2 now = Ok k);
+  rel_ttl : forall t1 t2, Rt t1 t2 -> op_ttl O1 t1 = op_ttl O2 t2 }.
 
 Hypothesis HR : ops_rel.
 
@@ -70,18 +71,22 @@ Qed.
 Definition opt_rel {A B} (R : A -> B -> Prop) (a : option A) (b : option B) : Prop :=
   match a, b with Some x, Some y => R x y | None, None => True | _, _ => False end.
 
+Definition rf_rel (x : bucket T1 * bool) (y : bucket T2 * bool) : Prop := Rb (fst x) (fst y) /\ snd x = snd y.
+
 Lemma reset_first_rel inc ttl now : forall b1 b2,
   Rb b1 b2 -> now < B63 -> 1 <= ttl -> ttl < U32 ->
-  exists r1 r2, reset_first T1 O1 inc ttl now b1 = Ok r1 /\ reset_first T2 O2 inc ttl now b2 = Ok r2 /\ opt_rel Rb r1 r2.
+  exists r1 r2, reset_first T1 O1 inc ttl now b1 = Ok r1 /\ reset_first T2 O2 inc ttl now b2 = Ok r2 /\ opt_rel rf_rel r1 r2.
 Proof.
   intros b1 b2 H Hn H1 H2. induction H as [|e1 e2 b1 b2 [Hid Ht] Hb IH].
   - exists None, None. repeat split.
   - simpl. rewrite Hid. destruct (matches (c_id e2) inc).
     + destruct (rel_reset HR _ _ ttl now Ht Hn H1 H2) as (t1' & t2' & E1 & E2 & Hr).
-      rewrite E1, E2. simpl. do 2 eexists. repeat split. simpl. constructor; [split; [reflexivity | assumption] | exact Hb].
+      rewrite E1, E2, (rel_ttl HR _ _ Ht). simpl. do 2 eexists. repeat split. simpl.
+      constructor; [split; [reflexivity | assumption] | exact Hb].
     + destruct IH as (r1 & r2 & E1 & E2 & Hr). rewrite E1, E2. simpl.
-      do 2 eexists. repeat split. destruct r1, r2; simpl in *; try contradiction; auto.
-      constructor; [split; assumption | exact Hr].
+      do 2 eexists. repeat split. destruct r1 as [[x1 v1]|], r2 as [[x2 v2]|]; simpl in *; try contradiction; auto.
+      destruct Hr as [Hx Hv]. simpl in *. split; [|assumption].
+      constructor; [split; assumption | exact Hx].
 Qed.
 
 Definition aou_rel (x : bucket T1 * list N * bool) (y : bucket T2 * list N * bool) : Prop :=
@@ -103,9 +108,9 @@ Proof.
   { destruct (i_flush inc); [apply flush_pass_rel; assumption | do 3 eexists; repeat split; assumption]. }
   rewrite F1, F2. simpl.
   destruct (reset_first_rel inc ttl now _ _ Hb' Hn H1 H2) as (r1 & r2 & E1 & E2 & Hr). rewrite E1, E2. simpl.
-  destruct r1 as [x1|], r2 as [x2|]; simpl in Hr; try contradiction.
-  - do 2 eexists. repeat split. simpl. repeat split; assumption.
-  - do 2 eexists. repeat split. simpl. repeat split. constructor; [split; [reflexivity | exact Hnew] | exact Hb'].
+  destruct r1 as [[x1 v1]|], r2 as [[x2 v2]|]; simpl in Hr; try contradiction.
+  - destruct Hr as [Hx Hv]. simpl in Hx, Hv. subst v2. do 2 eexists. repeat split. simpl. assumption.
+  - do 2 eexists. repeat split. simpl. constructor; [split; [reflexivity | exact Hnew] | exact Hb'].
 Qed.
 
 (* ---- eviction / refresh / known answers on a Vec ---- *)
@@ -340,33 +345,44 @@ Qed.
 
 (* ---- eviction ---- *)
 
-Lemma evict_instance_rel now e1 e2 c1 c2 rm :
+Lemma sweep_srv_rel now : forall c1 c2,
+  Rc c1 c2 -> Rc (fst (sweep_srv T1 O1 c1 now)) (fst (sweep_srv T2 O2 c2 now)) /\
+              snd (sweep_srv T1 O1 c1 now) = snd (sweep_srv T2 O2 c2 now).
+Proof.
+  intros c1 c2 H. induction H as [|[k1 b1] [k2 b2] c1 c2 [Hk Hb] Hc [IH1 IH2]]; [split; [constructor | reflexivity]|].
+  simpl in Hk. subst k2. simpl.
+  destruct (sweep_srv T1 O1 c1 now) as [r1 g1]. destruct (sweep_srv T2 O2 c2 now) as [r2 g2].
+  simpl in IH1, IH2. subst g2.
+  destruct (fst k1 =? 1).
+  - destruct (evict_rel _ _ now Hb) as [Hkept _]. unfold evict in Hkept. simpl in Hkept.
+    rewrite (Rb_nil_iff _ _ Hkept). destruct (is_nil _); simpl.
+    + split; [assumption | reflexivity].
+    + split; [constructor; [split; [reflexivity | assumption] | assumption] | reflexivity].
+  - simpl. split; [constructor; [split; [reflexivity | assumption] | assumption] | reflexivity].
+Qed.
+
+Lemma evict_instance_rel now gone e1 e2 c1 c2 rm :
   Re e1 e2 -> Rc c1 c2 ->
-  Rc (fst (evict_instance T1 O1 now (c1, rm) e1)) (fst (evict_instance T2 O2 now (c2, rm) e2)) /\
-  snd (evict_instance T1 O1 now (c1, rm) e1) = snd (evict_instance T2 O2 now (c2, rm) e2).
+  Rc (fst (evict_instance T1 O1 now gone (c1, rm) e1)) (fst (evict_instance T2 O2 now gone (c2, rm) e2)) /\
+  snd (evict_instance T1 O1 now gone (c1, rm) e1) = snd (evict_instance T2 O2 now gone (c2, rm) e2).
 Proof.
   intros [Hid Ht] Hc. unfold evict_instance. rewrite Hid.
   destruct (alias_of (c_id e2)) as [inst|]; [|split; [assumption | reflexivity]].
-  pose proof (get_bucket_rel (1, inst) _ _ Hc) as Hbs.
-  destruct (evict_rel _ _ now Hbs) as [Hks _].
-  pose proof (set_bucket_rel (1, inst) _ _ _ _ Hc Hks) as Hc1.
-  pose proof (get_bucket_rel (2, inst) _ _ Hc1) as Hbt.
+  pose proof (get_bucket_rel (2, inst) _ _ Hc) as Hbt.
   destruct (evict_rel _ _ now Hbt) as [Hkt _].
-  cbn [fst snd]. split.
-  - apply set_bucket_rel; assumption.
-  - rewrite (Rb_nil_iff _ _ Hbs), (Rb_nil_iff _ _ Hks). reflexivity.
+  cbn [fst snd]. split; [apply set_bucket_rel; assumption | reflexivity].
 Qed.
 
-Lemma fold_evict_instance_rel now : forall b1 b2 c1 c2 rm,
+Lemma fold_evict_instance_rel now gone : forall b1 b2 c1 c2 rm,
   Rb b1 b2 -> Rc c1 c2 ->
-  Rc (fst (fold_left (evict_instance T1 O1 now) b1 (c1, rm))) (fst (fold_left (evict_instance T2 O2 now) b2 (c2, rm))) /\
-  snd (fold_left (evict_instance T1 O1 now) b1 (c1, rm)) = snd (fold_left (evict_instance T2 O2 now) b2 (c2, rm)).
+  Rc (fst (fold_left (evict_instance T1 O1 now gone) b1 (c1, rm))) (fst (fold_left (evict_instance T2 O2 now gone) b2 (c2, rm))) /\
+  snd (fold_left (evict_instance T1 O1 now gone) b1 (c1, rm)) = snd (fold_left (evict_instance T2 O2 now gone) b2 (c2, rm)).
 Proof.
   intros b1 b2 c1 c2 rm H. revert c1 c2 rm. induction H as [|e1 e2 b1 b2 He Hb IH]; intros c1 c2 rm Hc.
   - simpl. split; [assumption | reflexivity].
-  - simpl. destruct (evict_instance_rel now e1 e2 c1 c2 rm He Hc) as [Hc' Hrm].
-    destruct (evict_instance T1 O1 now (c1, rm) e1) as [x1 r1].
-    destruct (evict_instance T2 O2 now (c2, rm) e2) as [x2 r2]. simpl in *. subst r2.
+  - simpl. destruct (evict_instance_rel now gone e1 e2 c1 c2 rm He Hc) as [Hc' Hrm].
+    destruct (evict_instance T1 O1 now gone (c1, rm) e1) as [x1 r1].
+    destruct (evict_instance T2 O2 now gone (c2, rm) e2) as [x2 r2]. simpl in *. subst r2.
     apply IH. assumption.
 Qed.
 
@@ -393,15 +409,19 @@ Lemma evict_services_rel c1 c2 now browse :
   Rc (fst (evict_services T1 O1 c1 now browse)) (fst (evict_services T2 O2 c2 now browse)) /\
   snd (evict_services T1 O1 c1 now browse) = snd (evict_services T2 O2 c2 now browse).
 Proof.
-  intros Hc. unfold evict_services. destruct browse as [ty|].
-  - pose proof (get_bucket_rel (0, ty) _ _ Hc) as Hp.
-    destruct (fold_evict_instance_rel now _ _ _ _ [] Hp Hc) as [Hc1 Hrm].
-    destruct (fold_left (evict_instance T1 O1 now) (get_bucket T1 c1 (0, ty)) (c1, [])) as [x1 r1].
-    destruct (fold_left (evict_instance T2 O2 now) (get_bucket T2 c2 (0, ty)) (c2, [])) as [x2 r2].
+  intros Hc. unfold evict_services.
+  destruct (sweep_srv_rel now _ _ Hc) as [Hc0 Hg].
+  destruct (sweep_srv T1 O1 c1 now) as [d1 g1]. destruct (sweep_srv T2 O2 c2 now) as [d2 g2].
+  simpl in Hc0, Hg. subst g2.
+  destruct browse as [ty|].
+  - pose proof (get_bucket_rel (0, ty) _ _ Hc0) as Hp.
+    destruct (fold_evict_instance_rel now g1 _ _ _ _ [] Hp Hc0) as [Hc1 Hrm].
+    destruct (fold_left (evict_instance T1 O1 now g1) (get_bucket T1 d1 (0, ty)) (d1, [])) as [x1 r1].
+    destruct (fold_left (evict_instance T2 O2 now g1) (get_bucket T2 d2 (0, ty)) (d2, [])) as [x2 r2].
     simpl in Hc1, Hrm. subst r2.
     destruct (evict_rel _ _ now Hp) as [Hkp Hxp].
-    destruct (evict T1 O1 (get_bucket T1 c1 (0, ty)) now) as [kp1 xp1].
-    destruct (evict T2 O2 (get_bucket T2 c2 (0, ty)) now) as [kp2 xp2]. simpl in Hkp, Hxp.
+    destruct (evict T1 O1 (get_bucket T1 d1 (0, ty)) now) as [kp1 xp1].
+    destruct (evict T2 O2 (get_bucket T2 d2 (0, ty)) now) as [kp2 xp2]. simpl in Hkp, Hxp.
     simpl. split.
     + apply sweep_rel. apply set_bucket_rel; assumption.
     + rewrite (removed_aliases_rel _ _ Hxp). reflexivity.
